@@ -662,3 +662,11 @@ func (s *Sim) VirtualElapsed() time.Duration { return time.Duration(s.now - s.cf
 
 // Tasks returns the number of tasks created.
 func (s *Sim) Tasks() int { return len(s.tasks) }
+
+// TaskName returns the name of task id ("" if unknown).
+func (s *Sim) TaskName(id int) string {
+	if id < 0 || id >= len(s.tasks) {
+		return ""
+	}
+	return s.tasks[id].Name
+}
